@@ -44,9 +44,32 @@ def seed_table():
     return "\n".join(rows)
 
 
+def seed_layers():
+    build, stream, oracle, missed, sup = [], [], [], [], []
+    for d in sorted(glob.glob(os.path.join(VERIF, "seeded", "C*"))):
+        m = json.load(open(os.path.join(d, "meta.json"))); name = os.path.basename(d)
+        if m.get("status") == "superseded": sup.append(name); continue
+        res = (m.get("detection") or {}).get("results", {})
+        hit = [r for r in res.values() if r.get("rc") == 1]
+        if not hit: missed.append(name); continue
+        rp = hit[0].get("replay") or {}
+        if rp.get("kind") == "failing-input": oracle.append(name)
+        else:
+            kinds = {b.get("kind") for b in (rp.get("broken") or [])}
+            (build if "build" in kinds or "audit" in kinds else stream).append(name)
+    tot = len(build) + len(stream) + len(oracle) + len(missed)
+    lines = ["%d of %d seeded changes are reported by the quick check of their own property." % (tot - len(missed), tot),
+             "* concrete failing input on the real code (found by a direct oracle, or by the search after a proof / stream broke): %d — %s" % (len(oracle), ", ".join(oracle)),
+             "* `no-failing-input-found`, a Lean obligation no longer builds (regenerated definitions): %d — %s" % (len(build), ", ".join(build) or "none"),
+             "* `no-failing-input-found`, a correspondence stream differs: %d — %s" % (len(stream), ", ".join(stream) or "none"),
+             "* not reported: %d — %s" % (len(missed), ", ".join(missed) or "none"),
+             "* superseded by a later `fix:` commit: %s" % (", ".join(sup) or "none")]
+    return "\n".join(lines)
+
+
 def main():
     p = os.path.join(VERIF, "DESIGN.md"); s = open(p).read()
-    for tag, fn in (("PROPTABLE", prop_table), ("SEEDTABLE", seed_table)):
+    for tag, fn in (("PROPTABLE", prop_table), ("SEEDTABLE", seed_table), ("SEEDLAYERS", seed_layers)):
         a, b = "<!-- AUTO:%s:BEGIN -->" % tag, "<!-- AUTO:%s:END -->" % tag
         assert a in s and b in s, tag
         s = s[:s.index(a) + len(a)] + "\n" + fn() + "\n" + s[s.index(b):]
